@@ -79,6 +79,8 @@ fn class_weights(mode: Prop, kind: Kind, mbuff_len: usize) -> Vec<(Class, u32)> 
             w.push((Class::StackPlain, 1));
             w.push((Class::StackLeakWrite, 1));
             w.push((Class::StackLeakRead, 2));
+            w.push((Class::LongAlu, 1));
+            w.push((Class::FailInCallee, 1));
             if kind != Kind::Fixed {
                 // on the fixed-metadata VM r1 is the VM's private buffer: not comparable across VMs
                 w.push((Class::R1Plain, 1));
@@ -98,6 +100,7 @@ fn class_weights(mode: Prop, kind: Kind, mbuff_len: usize) -> Vec<(Class, u32)> 
                 w.push((Class::ProbePktAbs, 1));
                 w.push((Class::ProbePktInd, 1));
                 w.push((Class::ProbeHelperThenPkt, 1));
+                w.push((Class::ProbeCallThenPkt, 1));
             }
         }
         Prop::C09 => {
@@ -122,6 +125,7 @@ fn class_weights(mode: Prop, kind: Kind, mbuff_len: usize) -> Vec<(Class, u32)> 
                 w.push((Class::ProbePktAbs, 3));
                 w.push((Class::ProbePktInd, 3));
                 w.push((Class::ProbeHelperThenPkt, 3));
+                w.push((Class::ProbeCallThenPkt, 2));
             }
         }
     }
@@ -244,10 +248,26 @@ pub fn generate(rng: &mut Rng, mode: Prop) -> Scenario {
                 let ind = rng.chance(1, 2);
                 gen_probe_helper_then_pkt(rng, tag, idx, ind)
             }
+            Class::LongAlu => gen_long_alu(rng, tag),
+            Class::FailInCallee => gen_fail_in_callee(tag),
+            Class::ProbeCallThenPkt => {
+                let i = rng.below((p0len.min(200) - 8) as u64 + 1) as usize;
+                let j = rng.below((p0len.min(200) - 8) as u64 + 1) as usize;
+                gen_probe_call_then_pkt(tag, i, j)
+            }
             Class::StackLeakWrite => gen_stack_leak_write(rng, tag),
             Class::StackLeakRead => gen_stack_leak_read(tag),
         };
         progs.push(p);
+    }
+    // sometimes one program of the pool is a byte-identical copy of another (a different slice
+    // with the same contents: loading it is a load like any other)
+    if npool >= 3 && rng.chance(1, 4) {
+        let src = rng.below(npool as u64) as usize;
+        let dst = rng.below(npool as u64) as usize;
+        if src != dst && dst != 0 {
+            progs[dst] = progs[src].clone();
+        }
     }
 
     // operation weights for this run
